@@ -30,7 +30,7 @@ const char *target_name = "mt";
 enum { L_SWITCH_IN_POST, L_SWITCH_OWNER_DETACH, L_CROSS_POST, L_SELF_POST, L_POST_FROM_HANDLER, L_UNREG_PENDING, L_TWO_OWNERS, L_POOL,
        L_SUBMIT_ALL_BUSY, L_SUBMIT_IDLE_EXPIRED, L_SUBMIT_BEFORE_FIRST_RUN, L_CONTINUATION, L_PUT_WHILE_BUSY, L_PUT_WHILE_STARTING, L_PUT_WHILE_IDLE,
        L_IDLE_TIMEOUT_DEATH, L_IVTHREAD, L_IVTHREAD_NODEINIT, L_IVTHREAD_PEXIT, L_M0, L_M1, L_M2, L_M3, L_RAW_KICK, L_EVENTFD_FALLBACK,
-       L_FD_UNREG_IN_EVENT, L_POOL_REUSE, L_SUBMIT_FROM_COMPLETION, L_TIME_PASSED_10S, L_BURST, L_RAW_CROSS_POST, L_RAW_BIG_BURST, L_LOCAL_WORK, L_PUT_FROM_COMPLETION, L_IVTHREAD_CREATE_FAILS, L_POOL_CREATE_FAILS, L_EVENT_REG_EMFILE, L_ITEM_STRUCT_REUSED, L_BUSY_OWNER, L_OWNER_STALLS };
+       L_FD_UNREG_IN_EVENT, L_POOL_REUSE, L_SUBMIT_FROM_COMPLETION, L_TIME_PASSED_10S, L_BURST, L_RAW_CROSS_POST, L_RAW_BIG_BURST, L_LOCAL_WORK, L_PUT_FROM_COMPLETION, L_IVTHREAD_CREATE_FAILS, L_POOL_CREATE_FAILS, L_EVENT_REG_EMFILE, L_ITEM_STRUCT_REUSED, L_BUSY_OWNER, L_OWNER_STALLS, L_POST_THEN_UNREG_PENDING };
 
 #define FAILP(prop, tag, ...) vz_fail(prop, tag, __VA_ARGS__)
 static void fail_any(const char *tag, const char *fmt, ...)
@@ -480,7 +480,12 @@ static void owner_actions(struct owner *o, int nmax)
 	for (int k = 0; k < n && !o->shutdown_done; k++) {
 		o->budget--;
 		switch (ch_n(14)) {
-		case 0: { int i = 3 + ch_n(2); if (o->ev[i].registered) { vz_label(L_POST_FROM_HANDLER); ev_post(&o->ev[i]); } } break;
+		case 0: { int i = 3 + ch_n(2); if (o->ev[i].registered) { vz_label(L_POST_FROM_HANDLER); ev_post(&o->ev[i]);
+				/* coupled pair (the same history as action 0 followed by action 2, made likely): post one local event, then
+				   unregister the other one while a post of it is still waiting to be handled */
+				struct mev *x = &o->ev[7 - i];
+				if (x->registered && x->last_completed_post_start > x->last_handler_entry && (o->budget & 1)) { vz_label(L_POST_THEN_UNREG_PENDING); ev_unregister(o, 7 - i); }
+			} } break;
 		case 1: if (nown > 1) { struct owner *p = &own[1 - oi]; int i = 1 + ch_n(2); if (p->ev[i].registered && !p->shutdown_done) ev_post(&p->ev[i]); } break;
 		case 2: { int i = 3 + ch_n(2); if (o->ev[i].registered) ev_unregister(o, i); } break;
 		case 3: { int i = 3 + ch_n(2); if (!o->ev[i].registered) ev_register(o, i); } break;
